@@ -78,6 +78,7 @@ class C13(RexDriver):
 
     # ------------------------------------------------------------- layers
     def layers(self, tier):
+        self._tier = tier
         L = [('n01-full', 'sets of size <=1 and hand-picked larger sets x '
               'all 120 non-tag option combinations + pruning options within '
               '2 deviations, tag off/on; ASCII singles within 1 deviation'),
@@ -274,7 +275,7 @@ class C13(RexDriver):
                          {'index': i, 'untagged': a, 'tagged': b})]
         return []
 
-    def evaluate(self, R, supplied, form, opts, runner=None):
+    def evaluate(self, R, supplied, form, opts):
         """Run tag off and on (list/dict forms) or once (pandas); return the
         failed clauses [(kind, clause, info)] and the untagged list."""
         failed = []
@@ -283,10 +284,7 @@ class C13(RexDriver):
         for tag in tags:
             o = dict(opts)
             o['tag'] = tag
-            if runner is not None:
-                rex, exc = runner(supplied, o)
-            else:
-                rex, _, exc = self.call(supplied, form, o)
+            rex, _, exc = self.call(supplied, form, o)
             R.ev()
             if exc is not None:
                 failed.append(('raises:%s' % type(exc).__name__,
@@ -409,26 +407,25 @@ class C13(RexDriver):
                 seen.add((kind, clause))
                 detail = dict(base)
                 detail.update(info)
-                R.viol('%s:%s' % (kind, self.sampled_cause(R, kind, supplied,
-                                                           opts)),
-                       clause, detail, sub)
+                R.viol(self.sampled_sig(R, kind, supplied, opts), clause,
+                       detail, sub)
         R.states = nexec
 
-
-    def sampled_cause(self, R, kind, supplied, opts):
-        """Root cause of a clause failing on the sampled path: if the same
-        clause does not fail without sampling it is specific to sampling;
-        otherwise diagnose on the unsampled route."""
-        base_kind = kind[len('sampled-'):] if kind.startswith('sampled-') \
-            else kind
+    def sampled_sig(self, R, kind, supplied, opts):
+        """Signature of a clause failing on the sampled path: if the same
+        clause also fails without sampling, the signature of that (same root
+        cause as on the unsampled path); otherwise `<kind>:sampling-only`."""
+        if not kind.startswith('sampled-'):
+            return kind
+        base_kind = kind[len('sampled-'):]
 
         def fails(s2, o2):
             f2, _ = self.evaluate(Res(), s2, 'list', o2)
             R.ev(2, checked=0)
             return any(f[0] == base_kind for f in f2)
         if not fails(supplied, opts):
-            return 'sampling-only'
-        return self.diagnose(supplied, opts, fails)
+            return '%s:sampling-only' % kind
+        return '%s:%s' % (base_kind, self.diagnose(supplied, opts, fails))
 
 
 CHECK = C13()
